@@ -1,0 +1,23 @@
+//go:build verif
+
+// Contracts for the deductive checker in /verif (read only with -tags verif).
+
+package cipher
+
+// ---- HCTR universal hash: the polynomial is evaluated over the blocks of M || T zero-padded, followed
+// by the length block. The field multiplication itself (mul) is only checked for memory safety here.
+//@ func (*hctr).mul property C03
+//@   nooverflow
+//@   modifies *y
+
+//@ func (*hctr).updateBlock property C03
+//@   requires len(block) >= 16
+//@   modifies *y
+
+// the blocks handed to updateBlock are exactly the 16-byte blocks of M || T padded with zeros
+//@ func (*hctr).uhash property C03
+//@   modifies *out
+//@   loop 1 invariant sameobj(msg, m) && offof(msg) + len(msg) == offof(m) + len(m) && offof(m) <= offof(msg) && (offof(msg) - offof(m)) % 16 == 0
+//@   loop 1 decreases len(msg)
+//@   assert before call updateBlock#2: forall i :: 0 <= i && i < 16 ==> partialBlock[i] == ite(i < len(msg), msg[i], h.tweak[i - len(msg)])
+//@   assert before call updateBlock#3: forall i :: 0 <= i && i < 16 ==> partialBlock[i] == ite(i < len(msg), h.tweak[16 - len(msg) + i], 0)
